@@ -28,7 +28,10 @@ InDocRange(k, v) == CASE k = "port" -> v >= 1 /\ v <= 65535
 RangeDocumented == {"port", "batch_size", "fault_percentage", "num_workers"}
 
 Written(w, k) == w[k] # Absent
-StatsOn(w) == w.client_stats \in {"on", "yes"}
+\* the texts an operator may write for client_stats: "on" and "yes" in any letter case switch it on, anything else leaves it off
+StatsOnTexts == {"on", "yes", "ON", "On", "oN", "YES", "Yes", "yEs"}
+StatsTexts == StatsOnTexts \cup {"off", "OFF", "no", "enabled", "onn"}
+StatsOn(w) == w.client_stats \in StatsOnTexts
 
 \* valid seeds: "ok"; "digits" (64 hex digits that all happen to be decimal); "zeros" (64 zeros) and "lzdigits" (60 zeros
 \* + 4 decimal digits). A YAML scalar resolver types the last two as small INTEGERS and drops their text, so a loader
